@@ -5,6 +5,7 @@
 #include <ArduinoJson.h>
 
 #include <map>
+#include <set>
 #include <string>
 #include <vector>
 
@@ -211,11 +212,10 @@ struct Inspector {
       };
       for (const StringNode* n : nodes)
         if (!rawOnly(n) && n->data[n->length] != 0) w.errors += "string node not NUL-terminated; ";
-      for (size_t i = 0; i < nodes.size(); i++)
-        for (size_t j = 0; j < i; j++)
-          if (nodes[i]->length == nodes[j]->length && memcmp(nodes[i]->data, nodes[j]->data, nodes[i]->length) == 0 &&
-              !rawOnly(nodes[i]) && !rawOnly(nodes[j]))
-            w.errors += "two string nodes hold equal bytes (de-duplication missed); ";
+      std::set<std::string> contents;  // linear in the number of nodes (documents with tens of thousands of keys)
+      for (const StringNode* n : nodes)
+        if (!rawOnly(n) && !contents.insert(std::string(n->data, n->length)).second)
+          w.errors += "two string nodes hold equal bytes (de-duplication missed); ";
     }
     // slot accounting: every used slot is exactly one of linked / extension / free
     if (!res.overflowed_) {
